@@ -55,7 +55,7 @@ CHECKS = {
         "Machine-checked proof over the writer model with file-position semantics: every non-empty sequence of close()/exit "
         "leaves the writer state of a single close (Props/C11.lean), hence the file reads back as the records written. The "
         "model's finalised flag mirrors the implementation's; the tie is differential execution of every finalisation string "
-        "x record sets x {VbsWriter, IpmWriter} x {VBS, 1014} on BytesIO and real files, plus a read-back oracle. In addition a SOURCE TIE: harness/pytrans.py translates the current Python text of VbsWriter.write / close / __exit__ (methods over a file = data + position) into Lean (Gen/Src.lean) on every run and lean/Cardutil/SrcTie/Writer.lean proves, for all inputs, that the translation equals the model (and restates the property for the translated code); when the source changes so that this no longer checks, the check runs its thorough generators (time-boxed) before answering (the correspondence remains the deciding tie).",
+        "x record sets x {VbsWriter, IpmWriter} x {VBS, 1014} on BytesIO and real files, plus a read-back oracle. In addition a SOURCE TIE: harness/pytrans.py translates the current Python text of VbsWriter.write / close / __exit__ (methods over a file = data + position) into Lean (Gen/Src.lean) on every run and lean/Cardutil/SrcTie/Writer.lean proves, for all inputs, that the translation equals the model (and restates the property for the translated code: C11_source); the BLOCKED writer is translated as well (VbsWriter.write / close / __exit__ over a translated Block1014 whose wrapped object is a file) and lean/Cardutil/SrcTie/Blocked.lean proves C11_source_blocked — any non-empty history of close() / __exit__ on a blocked writer leaves exactly the model's closed file, a second finalisation writes nothing; when the source changes so that this no longer checks, the check runs its thorough generators (time-boxed) before answering (the correspondence remains the deciding tie).",
         "Trusted: as C03; real-file glue (open/flush) is exercised, not modelled.",
         "DESIGN.md §8 C11"),
     'C13': (
